@@ -14,7 +14,6 @@ import (
 	"errors"
 	"hash"
 	"math"
-	"slices"
 )
 
 const (
@@ -110,10 +109,12 @@ func vetDSTXMD(h hash.Hash, dst []byte) []byte {
 		dst = hashAll(h, []byte(dstLongPrefix), dst)
 	}
 
-	// DST prime = length suffixed DST
-	dst = slices.Grow(dst, 1)
+	// DST prime = length suffixed DST. It is built in a new buffer: appending to dst itself would write into the
+	// caller's backing array whenever the slice has spare capacity.
+	dstPrime := make([]byte, 0, len(dst)+1)
+	dstPrime = append(dstPrime, dst...)
 
-	return append(dst, i2osp1(uint(len(dst)))[0])
+	return append(dstPrime, i2osp1(uint(len(dst)))[0])
 }
 
 func hashAll(h hash.Hash, input ...[]byte) []byte {
